@@ -131,6 +131,8 @@ def explore_and_check(res, fn, build_vcs, replay=None, negative=None, explorer_k
   ex = core.Explorer(**kw)
   D = vcmod.Discharger(timeout_ms=vc_timeout_ms, deadline=(ex.deadline + 30) if ex.deadline else None)
   neg_seen = False
+  neg_ok = False
+  neg_tries = 0
   seen_keys = {}
   npaths = 0
   first_violation_at = None
@@ -207,14 +209,20 @@ def explore_and_check(res, fn, build_vcs, replay=None, negative=None, explorer_k
         else:
           res["spurious"].append(entry)
           res["inconclusive"].append("VC %s: counterexample did not reproduce on the real code (%s)" % (v.name, desc))
-    if negative is not None and not neg_seen:
+    if negative is not None and not neg_ok and neg_tries < 40:
+      # the negative twin (deliberately wrong oracle) must be refuted on at
+      # least one path of the case; tried path by path until it is
       nv = negative(p)
       if nv:
-        res["negatives"] += 1
-        nout = D.prove_all(p.pc, nv, use_exp_axioms=use_exp_axioms, batch=False)
-        if any(st == "sat" for (_v, st, _m) in nout):
+        neg_tries += 1
+        if not neg_seen:
+          res["negatives"] += 1
+          neg_seen = True
+        s_ = D._solver(p.pc)
+        rneg = D._check(s_, z3.Not(z3.And([v_.formula for v_ in nv])))
+        if rneg == z3.sat:
           res["negatives_ok"] += 1
-        neg_seen = True
+          neg_ok = True
     if len(res["violations"]) >= stop_after_violations:
       res["notes"].append("exploration stopped early after %d confirmed violations" % len(res["violations"]))
       break
